@@ -10,7 +10,7 @@ from deeprob.spn.learning.cnet_bayesian import learn_cnet_bd, learn_cnet_bic
 def gen_data(rs, k):
     nv = int(rs.randint(2, 9))
     nr = int(rs.choice([4, 15, 60, 150, 400, 800]))
-    fam = k % 5
+    fam = k % 6
     X = rs.randint(0, 2, size=(nr, nv))
     if fam == 1:
         z = rs.randint(0, 2, size=(nr, 2))
@@ -21,7 +21,15 @@ def gen_data(rs, k):
         X = np.tile(rs.randint(0, 2, size=(1, nv)), (nr, 1))      # identical rows: nothing to split on
     elif fam == 4:
         X = (rs.rand(nr, nv) < 0.1).astype(int)
-    return X.astype(np.float32), ['random', 'clustered', 'constant-column', 'identical-rows', 'sparse'][fam]
+    elif fam == 5:
+        # context-specific dependence (x3 = x1 xor x2 if x0 = 0 else x1): makes the learners split below the root
+        nv = max(nv, 4)
+        nr = int(rs.choice([300, 600, 1000]))
+        X = rs.randint(0, 2, size=(nr, nv))
+        X[:, 3] = np.where(X[:, 0] == 0, X[:, 1] ^ X[:, 2], X[:, 1])
+        if nv > 4:
+            X[:, 4] = np.where(X[:, 1] == 1, X[:, 0] ^ X[:, 2], X[:, 4])
+    return X.astype(np.float32), ['random', 'clustered', 'constant-column', 'identical-rows', 'sparse', 'context-specific'][fam]
 
 
 def learn(rs, X, k):
@@ -71,6 +79,10 @@ def export(node, depth=0):
     return dict(kind='or', scope=scope, v=int(node.or_id), w=[fstr(frac(x)) for x in w], ch=kids), probs
 
 
+def or_depth(node):
+    return 0 if not node.children else 1 + max(or_depth(ch) for ch in node.children)
+
+
 def semantics_py(node, x):
     """the property's statement written independently: branch weights selected by the row x CLT likelihood at the leaf reached"""
     ll = 0.0
@@ -96,6 +108,7 @@ def one_case(ctx, k):
                                                                                     split=bool(c.children)))
     ctx.count('learner:' + which)
     ctx.count('root-split' if c.children else 'no-split-at-all')
+    ctx.count(f'or-depth={or_depth(c)}')
     rep.update(learner=which, args=kw, data=X.astype(int).tolist())
     rows = np.array(list(itertools.product([0, 1], repeat=nv)), dtype=np.float32)
     try:
@@ -108,6 +121,22 @@ def one_case(ctx, k):
     if abs(mass - 1.0) > 1e-4:
         ctx.violation('c18-mass', f'likelihoods of all {len(rows)} binary rows sum to {mass}', replay=rep)
         return
+    # the value of a row must not depend on which other rows are in the batch: single rows, and the rows of one branch only
+    for sub in [rows[i:i + 1] for i in range(0, len(rows), max(1, len(rows) // 12))] + [rows[rows[:, 0] == 1], rows[rows[:, -1] == 0]]:
+        if len(sub) == 0:
+            continue
+        try:
+            l2 = np.asarray(c.log_likelihood(sub), dtype=np.float64).reshape(-1)
+        except Exception as ex:
+            ctx.violation(f'c18-evaluation-raises:{type(ex).__name__}', f'log_likelihood raises {type(ex).__name__}: {ex} on a batch of {len(sub)} row(s)', replay=rep)
+            return
+        ctx.count('sub-batches')
+        for x_, v_ in zip(sub, l2):
+            ref = semantics_py(c, x_)
+            if abs(ref - v_) > 1e-4 + 1e-5 * abs(ref):
+                ctx.violation('c18-batch-dependent', f'row {x_.tolist()} evaluated in a batch of {len(sub)} row(s): log_likelihood {v_} but branch weights x leaf tree '
+                                                     f'likelihood gives {ref}', replay=dict(rep, rows=sub.tolist()))
+                return
     tree, probs = export(c)
     if probs:
         ctx.violation('c18-malformed', 'returned network is malformed: ' + probs[0], replay=rep)
